@@ -941,6 +941,23 @@ def registry_probe_inputs(name, rng, k=40):
                         elif tail_mode == 'zero':
                             s2[i] = alphabet[0]
                     out.append(''.join(s2))
+    # random root-to-leaf walks: every level picks a registered child, so deep branches are reached as well
+    for _ in range(k * 4):
+        level = roots
+        head = ''
+        while level:
+            e = rng.choice(level)
+            lo, hi = rng.choice(e.ranges)
+            head += rng.choice((lo, hi)) if lo[:1] == hi[:1] or len(lo) > 1 else rng.choice(alphabet)
+            level = e.children
+        for t in templates[:1]:
+            pos = [i for i, c in enumerate(t) if c.isalnum()]
+            if len(head) > len(pos):
+                head = head[:len(pos)]
+            s2 = list(t)
+            for c, i in zip(head, pos):
+                s2[i] = c
+            out.append(''.join(s2))
     return list(dict.fromkeys(out))
 
 
